@@ -82,6 +82,101 @@ type Counted struct {
 }
 
 func countedLoop(l *Loop) *Counted {
+	if c := countedLoopTop(l); c != nil {
+		return c
+	}
+	return countedLoopRotated(l)
+}
+
+// countedLoopRotated recognises go/ssa's lowering of `for i := range n`:
+//
+//	pre:    if 0 < n goto body else exit
+//	body:   i = phi [pre: 0, latch: next] ... 
+//	latch:  next = i + 1; if next < n goto body else exit
+//
+// The body runs max(n, 0) times with i = 0..n-1.
+func countedLoopRotated(l *Loop) *Counted {
+	h := l.Header
+	for _, in := range h.Instrs {
+		phi, ok := in.(*ssa.Phi)
+		if !ok {
+			break
+		}
+		c := &Counted{Loop: l, Phi: phi, Body: h}
+		okAll := true
+		var next *ssa.BinOp
+		for i, e := range phi.Edges {
+			pred := h.Preds[i]
+			if l.Blocks[pred] {
+				bo, ok := e.(*ssa.BinOp)
+				if !ok || bo.X != ssa.Value(phi) || bo.Op != token.ADD {
+					okAll = false
+					break
+				}
+				if k, ok := constInt(bo.Y); !ok || k != 1 {
+					okAll = false
+					break
+				}
+				next = bo
+				// the latch tests next < bound, true edge back to the header
+				iff, ok := pred.Instrs[len(pred.Instrs)-1].(*ssa.If)
+				if !ok {
+					okAll = false
+					break
+				}
+				cmp, ok := asCmp(iff.Cond, pred.Succs[0] == h)
+				if !ok || cmp.X != ssa.Value(bo) || cmp.Op != token.LSS {
+					okAll = false
+					break
+				}
+				if c.Bound != nil && c.Bound != cmp.Y {
+					okAll = false
+					break
+				}
+				c.Bound = cmp.Y
+				if pred.Succs[0] == h {
+					c.Exit = pred.Succs[1]
+				} else {
+					c.Exit = pred.Succs[0]
+				}
+			} else {
+				z, ok := constInt(e)
+				if !ok || z != 0 {
+					okAll = false
+					break
+				}
+				c.Init = e
+				// the entry edge is guarded by 0 < bound
+				iff, ok := pred.Instrs[len(pred.Instrs)-1].(*ssa.If)
+				if !ok {
+					okAll = false
+					break
+				}
+				cmp, ok := asCmp(iff.Cond, pred.Succs[0] == h)
+				if !ok || cmp.Op != token.LSS {
+					okAll = false
+					break
+				}
+				if z0, ok := constInt(cmp.X); !ok || z0 != 0 {
+					okAll = false
+					break
+				}
+				if c.Bound != nil && c.Bound != cmp.Y {
+					okAll = false
+					break
+				}
+				c.Bound = cmp.Y
+			}
+		}
+		if okAll && next != nil && c.Init != nil && c.Bound != nil {
+			c.Step, c.Op = 1, token.LSS
+			return c
+		}
+	}
+	return nil
+}
+
+func countedLoopTop(l *Loop) *Counted {
 	h := l.Header
 	if len(h.Instrs) == 0 {
 		return nil
